@@ -328,7 +328,8 @@ pub fn dump(args: &[String]) -> i32 {
                     let (score, mv) = s.find_best_move(&b, d as u8, None);
                     let (hits, deeper) = crate::search::verif::counters();
                     json!({"d":d,"score":clamp(score),"move":mv.map(|m| proj::move_text(&m)).unwrap_or_else(|| "-".into()),
-                           "nodes":s.verif_nodes(),"hits":hits,"deeper":deeper,"rep":s.verif_repetition_len(),
+                           "nodes":s.verif_nodes(),"polls":crate::timer::verif::poll_stats().0,"hits":hits,"deeper":deeper,
+                           "rep":s.verif_repetition_len(),
                            "entries":entries(&s, &g).iter().map(|e| json!([e.0,e.1,e.2,e.3,e.4])).collect::<Vec<_>>()})
                 }));
                 match r {
@@ -340,27 +341,56 @@ pub fn dump(args: &[String]) -> i32 {
             if mode == "c06" {
                 // ---- every interruption point: abort at node k, then search again to completion
                 let total = fresh.last().and_then(|f| f["nodes"].as_u64()).unwrap_or(0);
-                let mut claims: BTreeMap<(usize, u8, i64, &'static str), u64> = BTreeMap::new();
-                let mut results: BTreeMap<(i64, String), u64> = BTreeMap::new();
+                let total_polls = fresh.last().and_then(|f| f["polls"].as_u64()).unwrap_or(0);
+                let mut claims: BTreeMap<(usize, u8, i64, &'static str), String> = BTreeMap::new();
+                let mut results: BTreeMap<(i64, String), String> = BTreeMap::new();
                 let mut reps: BTreeSet<(usize, usize, usize)> = BTreeSet::new();
                 let mut runs = 0u64;
                 let mut panics = 0u64;
                 let mut deeper_runs = 0u64;
+                // every interruption point: the deadline falls when the node count reaches k (k = 1..total),
+                // and - finer - the j-th evaluation of should_stop() is the first to answer true (j = 1..polls)
+                let mut deadlines: Vec<(char, u64)> = vec![];
                 let mut k = 1u64;
                 while k <= total {
+                    deadlines.push(('k', k));
+                    k += kstep;
+                }
+                let mut j = 1u64;
+                while j <= total_polls {
+                    deadlines.push(('j', j));
+                    j += kstep;
+                }
+                let set_deadline = |s: &mut Searcher, d: Option<(char, u64)>| match d {
+                    Some(('k', v)) => {
+                        crate::timer::verif::set_poll_limit(None);
+                        s.verif_set_node_limit(Some(v));
+                    }
+                    Some((_, v)) => {
+                        s.verif_set_node_limit(None);
+                        crate::timer::verif::set_poll_limit(Some(v));
+                    }
+                    None => {
+                        s.verif_set_node_limit(None);
+                        crate::timer::verif::set_poll_limit(None);
+                    }
+                };
+                for (idx, dl) in deadlines.iter().enumerate() {
+                    let wit = format!("{}{}", dl.0, dl.1);
                     let r = catch_unwind(AssertUnwindSafe(|| {
                         let mut s = Searcher::new();
                         let rep0 = s.verif_repetition_len();
-                        s.verif_set_node_limit(Some(k));
+                        set_deadline(&mut s, Some(*dl));
                         let _ = s.find_best_move(&b, depth as u8, None);
                         let rep1 = s.verif_repetition_len();
                         let e1 = entries(&s, &g);
-                        // optionally a second interrupted search at another point
-                        if k % 3 == 0 {
-                            s.verif_set_node_limit(Some((k * 7) % total + 1));
+                        // now and then a second interrupted search at another point before the completed one
+                        if idx % 3 == 0 {
+                            let other = deadlines[(idx * 7 + 3) % deadlines.len()];
+                            set_deadline(&mut s, Some(other));
                             let _ = s.find_best_move(&b, depth as u8, None);
                         }
-                        s.verif_set_node_limit(None);
+                        set_deadline(&mut s, None);
                         crate::search::verif::reset_counters();
                         let (score, mv) = s.find_best_move(&b, depth as u8, None);
                         let (_, deeper) = crate::search::verif::counters();
@@ -369,24 +399,24 @@ pub fn dump(args: &[String]) -> i32 {
                         (rep0, rep1, rep2, e1, e2, clamp(score), mv.map(|m| proj::move_text(&m)).unwrap_or_else(|| "-".into()), deeper)
                     }));
                     crate::timer::verif::set_node_limit(None);
+                    crate::timer::verif::set_poll_limit(None);
                     runs += 1;
                     match r {
                         Ok((r0, r1, r2, e1, e2, score, mv, deeper)) => {
                             reps.insert((r0, r1, r2));
                             for e in e1.iter().chain(e2.iter()) {
-                                claims.entry((e.0, e.1, e.2, e.3)).or_insert(k);
+                                claims.entry((e.0, e.1, e.2, e.3)).or_insert_with(|| wit.clone());
                             }
                             if deeper == 0 {
-                                results.entry((score, mv)).or_insert(k);
+                                results.entry((score, mv)).or_insert_with(|| wit.clone());
                             } else {
                                 deeper_runs += 1;
                             }
                         }
                         Err(_) => panics += 1,
                     }
-                    k += kstep;
                 }
-                ev["abort"] = json!({"d":depth,"total":total,"runs":runs,"panics":panics,"runs_excluded_deeper_hit":deeper_runs,
+                ev["abort"] = json!({"d":depth,"total":total,"total_polls":total_polls,"runs":runs,"panics":panics,"runs_excluded_deeper_hit":deeper_runs,
                     "claims":claims.iter().map(|(c, k)| json!([c.0,c.1,c.2,c.3,k])).collect::<Vec<_>>(),
                     "results":results.iter().map(|(r, k)| json!([r.0,r.1,k])).collect::<Vec<_>>(),
                     "reps":reps.iter().map(|r| json!([r.0,r.1,r.2])).collect::<Vec<_>>()});
@@ -396,6 +426,176 @@ pub fn dump(args: &[String]) -> i32 {
         }
         if tried > 200000 {
             break;
+        }
+    }
+    w.flush().ok();
+    0
+}
+
+
+// ---------------------------------------------------------------------------------------------
+// C07: promptness - how many nodes are entered after the deadline, at every expiry point
+// ---------------------------------------------------------------------------------------------
+pub fn prompt(args: &[String]) -> i32 {
+    let seed: u64 = arg(args, "--seed", "1").parse().unwrap();
+    let fens = arg(args, "--fens", "");
+    let out_path = arg(args, "--out", "");
+    let cap: u64 = arg(args, "--cap", "20000").parse().unwrap();
+    let samples: u64 = arg(args, "--samples", "40").parse().unwrap();
+    let maxdepth: u8 = arg(args, "--maxdepth", "5").parse().unwrap();
+    let part = arg(args, "--part", "0/1");
+    let (pi, pn): (usize, usize) = {
+        let v: Vec<usize> = part.split('/').map(|x| x.parse().unwrap()).collect();
+        (v[0], v[1])
+    };
+    let mut rng = rand::rngs::StdRng::seed_from_u64(seed);
+    let mut w = std::io::BufWriter::new(std::fs::File::create(&out_path).unwrap());
+    let mut idx = 0usize;
+    for l in std::fs::read_to_string(&fens).unwrap().lines() {
+        let l = l.trim();
+        if l.is_empty() {
+            continue;
+        }
+        idx += 1;
+        if idx % pn != pi {
+            continue;
+        }
+        let b = match proj::build(l) {
+            Ok(b) => b,
+            Err(_) => continue,
+        };
+        for depth in 2..=maxdepth {
+            // reference run: stop after `cap` nodes at the latest (explosive positions never finish)
+            let mut ks: Vec<u64> = vec![cap];
+            let probe = catch_unwind(AssertUnwindSafe(|| {
+                let mut s = Searcher::new();
+                s.verif_set_node_limit(Some(cap));
+                let _ = s.find_best_move(&b, depth, None);
+                s.verif_nodes()
+            }));
+            crate::timer::verif::set_node_limit(None);
+            let total = match probe {
+                Ok(n) => n,
+                Err(_) => {
+                    writeln!(w, "{}", json!({"ev":"prompt","fen":l,"pos":proj::project_struct(&b),"depth":depth,"panic":true})).ok();
+                    continue;
+                }
+            };
+            let top = total.min(cap).max(1);
+            for _ in 0..samples {
+                ks.push(rng.gen_range(1..=top));
+            }
+            ks.extend([1, 2, 3, top]);
+            for k in ks {
+                let r = catch_unwind(AssertUnwindSafe(|| {
+                    let mut s = Searcher::new();
+                    s.verif_set_node_limit(Some(k));
+                    let (_, mv) = s.find_best_move(&b, depth, None);
+                    let (polls, gap, at_stop) = crate::timer::verif::poll_stats();
+                    (s.verif_nodes(), polls, gap, at_stop, mv.is_some())
+                }));
+                crate::timer::verif::set_node_limit(None);
+                match r {
+                    Ok((fin, polls, gap, at_stop, has_move)) => {
+                        writeln!(w, "{}", json!({"ev":"prompt","fen":l,"pos":proj::project_struct(&b),"depth":depth,"k":k as i64,
+                            "final":fin as i64,"polls":polls as i64,"max_gap":gap as i64,
+                            "at_stop": if at_stop == u64::MAX { -1 } else { at_stop as i64 },"has_move":has_move})).ok();
+                    }
+                    Err(_) => {
+                        writeln!(w, "{}", json!({"ev":"prompt","fen":l,"pos":proj::project_struct(&b),"depth":depth,"k":k as i64,"panic":true})).ok();
+                    }
+                }
+            }
+        }
+    }
+    w.flush().ok();
+    0
+}
+
+// ---------------------------------------------------------------------------------------------
+// C08: mate in one is played; avoidable mate in one is never allowed
+// ---------------------------------------------------------------------------------------------
+fn is_mated(mg: &MoveGenerator, b: &Board) -> bool {
+    mg.is_in_check(b) && mg.generate_moves(b).is_empty()
+}
+
+pub fn mate(args: &[String]) -> i32 {
+    let seed: u64 = arg(args, "--seed", "1").parse().unwrap();
+    let want_m1: usize = arg(args, "--mate1", "3").parse().unwrap();
+    let want_def: usize = arg(args, "--defend", "3").parse().unwrap();
+    let fens = arg(args, "--fens", "");
+    let out_path = arg(args, "--out", "");
+    let mg = MoveGenerator::new();
+    let mut rng = rand::rngs::StdRng::seed_from_u64(seed);
+    let mut w = std::io::BufWriter::new(std::fs::File::create(&out_path).unwrap());
+    let (mut n1, mut nd) = (0usize, 0usize);
+    let answer = |b: &Board, depths: &[u8]| -> Vec<Value> {
+        depths
+            .iter()
+            .map(|&d| {
+                match catch_unwind(AssertUnwindSafe(|| {
+                    let mut s = Searcher::new();
+                    let (score, mv) = s.find_best_move(b, d, None);
+                    (clamp(score), mv.map(|m| proj::move_text(&m)).unwrap_or_else(|| "-".into()))
+                })) {
+                    Ok((sc, mv)) => json!([d, mv, sc]),
+                    Err(_) => json!([d, "panic", 0]),
+                }
+            })
+            .collect()
+    };
+    let mut emit = |b: &Board, w: &mut std::io::BufWriter<std::fs::File>, n1: &mut usize, nd: &mut usize, force: bool| {
+        // the engine's move generator only PROPOSES candidates; TLC recomputes everything
+        let moves = mg.generate_moves(b);
+        if moves.is_empty() {
+            return;
+        }
+        let m1 = moves.iter().any(|m| is_mated(&mg, &b.clone_with_move(m)));
+        if m1 && (*n1 < want_m1 || force) {
+            *n1 += 1;
+            writeln!(w, "{}", json!({"ev":"mate","kind":"m1","fen":proj::project(b),"pos":proj::project_struct(b),"answers":answer(b, &[1, 2, 3, 4])})).ok();
+            return;
+        }
+        if !m1 && (*nd < want_def || force) {
+            let allows: Vec<bool> = moves
+                .iter()
+                .map(|m| {
+                    let c = b.clone_with_move(m);
+                    mg.generate_moves(&c).iter().any(|r| is_mated(&mg, &c.clone_with_move(r)))
+                })
+                .collect();
+            let some = allows.iter().any(|x| *x);
+            let all = allows.iter().all(|x| *x);
+            if (some && !all) || force {
+                *nd += 1;
+                writeln!(w, "{}", json!({"ev":"mate","kind":"def","fen":proj::project(b),"pos":proj::project_struct(b),"answers":answer(b, &[2, 3])})).ok();
+            }
+        }
+    };
+    if !fens.is_empty() {
+        for l in std::fs::read_to_string(&fens).unwrap().lines() {
+            if let Ok(b) = proj::build(l.trim()) {
+                emit(&b, &mut w, &mut n1, &mut nd, true);
+            }
+        }
+        w.flush().ok();
+        return 0;
+    }
+    let mut games = 0;
+    while (n1 < want_m1 || nd < want_def) && games < 20000 {
+        games += 1;
+        let mut b = Board::default();
+        for _ in 0..200 {
+            let moves = mg.generate_moves(&b);
+            if moves.is_empty() {
+                break;
+            }
+            if rng.gen_bool(0.25) {
+                emit(&b, &mut w, &mut n1, &mut nd, false);
+            }
+            let caps: Vec<&Move> = moves.iter().filter(|m| m.move_type == MoveType::Capture).collect();
+            let m = if !caps.is_empty() && rng.gen_bool(0.35) { *caps[rng.gen_range(0..caps.len())] } else { moves[rng.gen_range(0..moves.len())] };
+            b.make_move(&m);
         }
     }
     w.flush().ok();
